@@ -71,6 +71,47 @@ def run(ctx):
                                 {"values": infer.short(perm, 400), "k": k}, {"got": [repr(t) for t in got], "reference": [repr(t) for t in refs]})
                     break
                 H.ok(key, sample=None)
+    # ---- values seen at a yield position travel another way: CallTrace.add_yield_type joins them with a bare Union inside one call
+    H.section("values yielded by one generator", "a real generator traced by the real tracer, called once and twice with the same values (dicts of one shape / two shapes, plain values), k in {0, 10}: the merged yield type "
+              "equals shrink_types of the per-value types and does not depend on how often the call was seen", "3 value lists x 2 k x {1, 2} calls")
+    import sys
+    from monkeytype.tracing import CallTracer, CallTraceLogger
+
+    class _Collect(CallTraceLogger):
+        def __init__(self):
+            self.traces = []
+
+        def log(self, trace):
+            self.traces.append(trace)
+
+    def yielder(items):
+        for it in items:
+            yield it
+    for label, items in (("plain", [1, "s", 1]), ("dicts-one-shape", [{"a": 1}, {"a": 2}]), ("dicts-two-shapes", [{"a": 1}, {"a": "x", "b": 2}])):
+        for k in (0, 10):
+            want = shrink_types([get_type(v, k) for v in items], k)
+            got = {}
+            for calls in (1, 2):
+                col = _Collect()
+                tracer = CallTracer(col, k, lambda code: code is yielder.__code__)
+                sys.setprofile(tracer)
+                try:
+                    for _ in range(calls):
+                        list(yielder(items))
+                finally:
+                    sys.setprofile(None)
+                got[calls] = shrink_traced_types(col.traces, k)[2]
+            key = "yielded|%s|k=%d" % (label, k)
+            rejected = [v for v in items for t in got.values() if t is None or not spec_c.mem(v, t)]
+            if rejected:
+                H.violation("monkeytype.tracing:CallTrace.add_yield_type", "yield-not-member:%s:%d" % (label, k), "merged yield type does not admit a yielded value", {"items": repr(items), "k": k},
+                            {"types": {c: repr(t) for c, t in got.items()}, "rejected": repr(rejected)})
+            elif not (spec_c.tyeq(got[1], got[2]) and spec_c.tyeq(got[1], want)):
+                H.violation("monkeytype.tracing:CallTrace.add_yield_type", "C04-yield-union-of-typeddicts|%s" % label if k > 0 and label.startswith("dicts") else "yield-multiplicity:%s:%d" % (label, k),
+                            "the merged yield type depends on how often the same call was seen: within one call yielded TypedDicts are joined by a bare Union (not merged), across calls they are rewritten to Dict",
+                            {"items": repr(items), "k": k}, {"one_call": repr(got[1]), "two_calls": repr(got[2]), "per_value_then_merge": repr(want)})
+            else:
+                H.ok(key, sample={"items": repr(items), "k": k, "type": repr(got[1])})
     return H.result()
 
 
